@@ -18,8 +18,17 @@ spec/batch/Batch.tla models the function at three granularities that share every
    where these can produce the case.  Thorough: the caller's context ending at any hook point (MC_gen_hook_c), seeded
    -simulate samples of 2..4 keys x 6 replicas (BatchSim.tla), and tolerances outside the contract (minSuccess 0:
    MC_degenerate must be refuted by TLC, MC_gen_degenerate: the code must wait for the context exactly as that model does).
-4. code -> spec: TestRace releases groups of callbacks simultaneously (real goroutines race inside record),
-   logs only Release/Cancel/observations; BatchTrace.tla lets TLC infer the interleaving of the atomic steps.
+4. code -> spec: TestRace releases groups of callbacks simultaneously (real goroutines race inside record; the caller's
+   context may end in the middle of such a group), logs only Release/Cancel/observations; BatchTrace.tla lets TLC infer the
+   interleaving of the atomic steps.  Thorough: also on 3 keys x 4 calls and on sampled 2..4 keys x 6 calls (BatchTrace6.cfg).
+5. The Go option (caller-supplied spawner) is part of the specification: constant Spawn = "deferred" adds the actions Begin(c) /
+   BeginCleanup (the spawner starts the replica calls and the cleanup waiter when and in the order it likes; MC_coarse_d, MC_fine_d,
+   MC_live_d), MC_neg_addlate (wait group armed inside the spawned function) must be refuted; bound code -> spec: TestRace in mode
+   "deferred" hands DoBatchWithOptions a spawner that only queues, starts the queued functions in a seeded order, BatchTraceD.cfg.
+Replay variants (what the specification does not depend on): spawner default / counting (exactly |calls|+1 invocations) / worker pool,
+IsClientError custom / default, Cleanup nil, InstanceDesc.Id empty (replicas are told apart by address), operation Write / Read /
+WriteNoExtend (the ring must be asked for the caller's), InstancesCount 0 / -1 / -2, rotation of the replication sets; indexes are
+compared in the order the code passes them (ascending, CalledExactly).
 """
 import os
 import threading
@@ -44,14 +53,23 @@ META = {
                   "ring.ActivePartitionBatchRing over a real PartitionRing (keys routed past an inactive partition) where these can "
                   "produce the case, through DoBatchWithOptions and through the deprecated DoBatch wrapper with concrete status codes "
                   "taken from the specification's table of the isHTTPStatus4xx classification; runs with simultaneously released "
-                  "callbacks are validated by TLC against the atomic-grain specification.",
+                  "callbacks (and the caller's context ending among them; thorough: up to 4 keys x 6 replica calls) are validated by TLC "
+                  "against the atomic-grain specification. The Go option is modelled (Spawn = deferred: the spawner starts replica calls "
+                  "and the cleanup waiter in any order at any time; Begin/BeginCleanup actions, the clauses and Termination hold; a model "
+                  "arming the wait group inside the spawned function is refuted) and bound by runs in which a queueing spawner hands "
+                  "control of every start to the driver, validated by TLC. Replay variants: default / counting (exact count) / pool "
+                  "spawner, custom / default classifier, nil Cleanup, empty instance ids, three operations, InstancesCount <= 0 as "
+                  "0, -1, -2; callback indexes compared in the code's order.",
     "level_note": "Trusted: TLC; testing/synctest quiescence (synctest.Wait) as 'nothing of the code can move'; the stub DoBatchRing "
                   "(returns exactly the case's replication sets and MaxErrors); error identity by pointer equality; the two yield hooks "
                   "sit where the specification's yield points are. Exhaustive bounds are small (<= 3 keys x 4 replica calls; 4 keys x 3; "
                   "5 calls for one key); 4 keys x 6 replicas x RF 5 is sampled, not enumerated. minSuccess >= 1 and non-empty "
                   "replication sets are assumed: ring.Ring's replication strategies and ActivePartitionBatchRing cannot produce anything "
                   "else (a hand-written DoBatchRing that does would make the call wait for the context). The context re-check every "
-                  "10^4 keys is modelled for the first key only (batches < 10^4 keys).",
+                  "10^4 keys is modelled for the first key only (batches < 10^4 keys). With the deferring spawner the driver cannot "
+                  "choose WHICH queued replica call starts next (the closures are opaque and the code ranges over a map), only its "
+                  "position in the queue: that direction is record/validate only, and which schedules are seen varies from run to run "
+                  "(every one of them must be accepted). Two InstanceDescs with one address inside ONE replication set are not modelled.",
     "technique": "TLA+ specification (Batch.tla, three granularities; BatchSim.tla random cases) model-checked / simulated by TLC; "
                  "TLC-generated behaviours replayed into the real code (gen/replay, incl. scheduler-gated fine interleavings); recorded "
                  "racing runs validated by TLC (BatchTrace.tla)",
@@ -88,11 +106,12 @@ def sorted_copy(ctx, src, name):
     return p, len(lines)
 
 
-def model_check(ctx, cfg, timeout, coverage=False):
+def model_check(ctx, cfg, timeout, coverage=False, exempt=("Begin", "BeginCleanup")):
+    """exempt: actions that cannot fire in this config by construction (Spawn = "go": nothing is deferred)."""
     r = ctx.tlc("batch", "Batch", cfg=cfg + ".cfg", workers=W, timeout=timeout, coverage=coverage, heap=HEAP)
     ctx.require_tlc_ok(r, cfg)
     if coverage:
-        zero = sorted(set(r.coverage_zero) - COVERAGE_EXEMPT)
+        zero = sorted(set(r.coverage_zero) - COVERAGE_EXEMPT - set(exempt))
         if zero:
             incon("%s: actions never taken (vacuous check): %s" % (cfg, zero))
     return r
@@ -129,6 +148,13 @@ class SpecStream(threading.Thread):
                    ["MC_fine_q1", "MC_fine_q2", "MC_fine_t1", "MC_fine_t2", "MC_fine_t3", "MC_fine_t4"]
             for cfg in fine:
                 model_check(ctx, cfg, 1500 if quick else 7200, coverage=(not quick and cfg == "MC_fine_t1"))
+            # a caller-supplied spawner (option Go) that starts the replica calls and the cleanup waiter when and in the order it likes;
+            # and the model that arms the wait group inside the spawned function must be refuted (negative control)
+            model_check(ctx, "MC_coarse_d", 1500 if quick else 7200)
+            as_code_must_hang(ctx, "MC_neg_addlate", "CleanupAfterAll")
+            if not quick:
+                model_check(ctx, "MC_fine_d", 7200, coverage=True, exempt=())
+                model_check(ctx, "MC_live_d", 7200)
             model_check(ctx, "MC_live_q" if quick else "MC_live_t", 1500 if quick else 7200)
             for cfg in (["MC_coarse_q"] if quick else ["MC_coarse_t", "MC_coarse_t5", "MC_coarse_t2", "MC_coarse_t3", "MC_coarse_t4"]):
                 model_check(ctx, cfg, 1500 if quick else 7200)
@@ -168,16 +194,21 @@ def replay(ctx, paths, n, timeout, variants=1, corrupt=0, real_every=4, wrap_eve
     return res
 
 
-def race_and_validate(ctx, behaviours, ntraces, timeout, corrupt=0):
-    trace = ctx.path("race.trace.ndjson")
+def race_and_validate(ctx, behaviours, ntraces, timeout, corrupt=0, cfg="BatchTrace.cfg", mode="", tag="race", maxgroup=0):
+    """cfg: BatchTrace.cfg (<= 4 replica calls), BatchTrace6.cfg (<= 6), BatchTraceD.cfg (deferring o.Go, mode "deferred")."""
+    trace = ctx.path(tag + ".trace.ndjson")
     env = {"VERIF_IN": behaviours, "VERIF_TRACE": trace, "VERIF_NTRACES": ntraces}
+    if mode:
+        env["VERIF_RACE_MODE"] = mode
+    if maxgroup:
+        env["VERIF_RACE_MAXGROUP"] = maxgroup
     if corrupt:
         env["VERIF_CORRUPT"] = corrupt
     res = ctx.run_harness("c10", "^TestRace$", env=env, timeout=timeout)
     traces = verif.read_ndjson(trace)
     if not traces or len(traces) != res.get("cases"):
         incon("TestRace recorded %d traces, reported %s" % (len(traces), res.get("cases")))
-    r = ctx.tlc("batch", "BatchTrace", cfg="BatchTrace.cfg", workers=W, timeout=timeout, deadlock=False, heap=HEAP,
+    r = ctx.tlc("batch", "BatchTrace", cfg=cfg, workers=W, timeout=timeout, deadlock=False, heap=HEAP,
                 extra_files={trace: "trace.ndjson"})
     ctx.require_tlc_ok(r, "trace validation")
     accepted, reached = set(), {}
@@ -196,12 +227,20 @@ def race_and_validate(ctx, behaviours, ntraces, timeout, corrupt=0):
         group = next((e for e in reversed(ev[:ev.index(bad)]) if e["e"] != "obs"), {"e": "start"})
         what = "return(%s)" % ",".join(sorted(group.get("os") or [])) if group["e"] == "rel" else group["e"]
         rejected.append({
-            "sig": "race:observation has no explanation after %s: returned=%s kind=%s cleaned=%s"
-                   % (what, bad.get("returned"), bad.get("kind"), bad.get("cleaned")),
+            "sig": "%s:observation has no explanation after %s: returned=%s kind=%s cleaned=%s"
+                   % (tag, what, bad.get("returned"), bad.get("kind"), bad.get("cleaned")),
             "case": t, "got": bad, "want": "an interleaving of the atomic steps of Batch.tla that shows this observation",
             "note": "events 1..%d of the trace are explained by the specification" % at})
     res["mismatches"] = (res.get("mismatches") or []) + rejected
-    res["nontrivial"] = sum(1 for t in traces if any(e["e"] == "rel" and len(e["cs"]) > 1 for e in t["ev"]))
+    def racing(t):
+        ev = t["ev"]
+        if any(e["e"] == "rel" and len(e["cs"]) > 1 for e in ev):
+            return True
+        if any(a["e"] == "rel" and b["e"] == "cancel" for a, b in zip(ev, ev[1:])):     # the context ends among the answers
+            return True
+        kinds = [e["e"] for e in ev]            # the cleanup waiter was started before one of the replica calls
+        return "beginc" in kinds and "begin" in kinds[kinds.index("beginc"):]
+    res["nontrivial"] = sum(1 for t in traces if racing(t))
     return res, len(traces), len(rejected)
 
 
@@ -211,7 +250,8 @@ def run(ctx):
                 "Get error / no instances, outcome of every call in {ok, cerr, serr}, completion order - or, at grain hook, the interleaving "
                 "of the stretches between yield points - and cancellation point); distinct = distinct TLC end states (the history is part of "
                 "the state); non-trivial = at least 2 replica calls and at least one failing call or a cancellation. Race traces: distinct "
-                "seeded samples of those behaviours with consecutive returns merged into simultaneous groups; non-trivial = has a group of >= 2.")
+                "seeded samples of those behaviours with consecutive returns merged into simultaneous groups; non-trivial = has a group of >= 2, "
+                "the context ending inside a group, or (deferring spawner) the cleanup waiter started before a replica call.")
     ctx.assumptions = ["synctest.Wait() quiescence = no goroutine of the call can move",
                        "stub DoBatchRing returns exactly the case's replication sets / MaxErrors; minSuccess >= 1, replication sets non-empty",
                        "error identity compared by pointer equality; VerifYield hooks sit at the specification's yield points",
@@ -227,7 +267,10 @@ def run(ctx):
         # 3. spec -> code
         call_path, n_call = generate(ctx, "MC_gen_call_q", 1500)
         hook_path, n_hook = generate(ctx, "MC_gen_hook_q", 1500)
-        res = replay(ctx, [call_path, hook_path], n_call + n_hook, 1200, variants=1 if quick else 3, corrupt=corrupt,
+        # grain hook with the caller's context ending at any hook point (1 key x 2 replicas; thorough: MC_gen_hook_c, 2 keys)
+        hookc_path, n_hookc = generate(ctx, "MC_gen_hook_cq", 1500)
+        n_hook += n_hookc
+        res = replay(ctx, [call_path, hook_path, hookc_path], n_call + n_hook, 1200, variants=1 if quick else 3, corrupt=corrupt,
                      real_every=4 if quick else 1, wrap_every=5 if quick else 1)
         f1 = [m for m in res.get("mismatches") or [] if m.get("sig") == "empty-keys:never-returns"]
         if f1:
@@ -263,6 +306,23 @@ def run(ctx):
         res, ntr, nrej = race_and_validate(ctx, call_path, 100 if quick else 600, 1500 if quick else 7200,
                                            corrupt=(3 if corrupt else 0))
         ctx.absorb(res, "race traces validated by BatchTrace.tla")
+        # ... the same with an o.Go that only queues: the driver starts the spawned functions in a seeded order (the cleanup
+        # waiter before, between or after the replica calls; calls begun after the return), BatchTrace.tla with Spawn = "deferred"
+        res, ntr_d, nrej_d = race_and_validate(ctx, call_path, 60 if quick else 400, 1500 if quick else 7200,
+                                               cfg="BatchTraceD.cfg", mode="deferred", tag="race-deferred-spawner")
+        ctx.absorb(res, "race traces with a deferring spawner validated by BatchTrace.tla")
+        ntr, nrej = ntr + ntr_d, nrej + nrej_d
+        ctx.extra["race_traces_deferred_spawner"] = ntr_d
+        if not quick:
+            # free-running races on the larger universes: 3 keys x 4 replica calls (enumerated behaviours), 2..4 keys x 6 calls (sampled)
+            res, n_a, r_a = race_and_validate(ctx, p1, 300, 7200, tag="race-3keys", maxgroup=3)
+            ctx.absorb(res, "race traces (3 keys x 4 replica calls) validated by BatchTrace.tla")
+            res, n_b, r_b = race_and_validate(ctx, p5, 150, 7200, cfg="BatchTrace6.cfg", tag="race-6calls", maxgroup=3)
+            ctx.absorb(res, "race traces (2..4 keys x 6 replica calls) validated by BatchTrace.tla")
+            res, n_c, r_c = race_and_validate(ctx, p6, 100, 7200, cfg="BatchTrace6.cfg", tag="race-6calls-cancel", maxgroup=3)
+            ctx.absorb(res, "race traces (2..4 keys x 6 replica calls, context ending) validated by BatchTrace.tla")
+            ntr, nrej = ntr + n_a + n_b + n_c, nrej + r_a + r_b + r_c
+            ctx.extra["race_traces_large_universe"] = n_a + n_b + n_c
         ctx.extra["race_traces"] = ntr
         ctx.extra["race_traces_rejected"] = nrej
     finally:
